@@ -78,6 +78,9 @@ def save_load_cores(E, s):
             x = x.conj()
         elif s['conj'] == 'sliced':
             x = x[tuple(slice(0, None, 2) for n in s['N']) * (2 if 'M' in s else 1)]
+    if s.get('prefix') == 'eye':
+        # an object whose leading cores hold concrete, exactly representable values (identity / ones factors) in front of generic ones
+        x = E.tt.kron(E.tt.eye([2], dtype=E.dt(s['dtype'])) if 'M' in s else E.tt.ones([2], dtype=E.dt(s['dtype'])), x)
     other = None
     if s.get('overwrite'):
         other, _ = tt_input(E, 'z', s['N'], s['R'], s['dtype'], s.get('M'))
